@@ -33,13 +33,13 @@ pub fn sf<T: Clone>(v: &[T]) -> SF<T> {
 pub fn seg(lists: &[Vec<usize>], codomain: usize) -> IC<FF> {
     let sizes: Vec<usize> = lists.iter().map(|l| l.len()).collect();
     let values: Vec<usize> = lists.iter().flatten().cloned().collect();
-    IndexedCoproduct::from_semifinite(SemifiniteFunction(Arr(sizes)), ff(&values, codomain)).expect("seg: valid by construction")
+    IndexedCoproduct::from_semifinite(SemifiniteFunction(Arr(sizes)), ff(&values, codomain)).expect("LIBRARY: checked constructor rejected a well-formed segmented array")
 }
 
 pub fn seg_sf<T: Clone>(lists: &[Vec<T>]) -> IC<SF<T>> {
     let sizes: Vec<usize> = lists.iter().map(|l| l.len()).collect();
     let values: Vec<T> = lists.iter().flatten().cloned().collect();
-    IndexedCoproduct::from_semifinite(SemifiniteFunction(Arr(sizes)), SemifiniteFunction(Arr(values))).expect("seg_sf: valid by construction")
+    IndexedCoproduct::from_semifinite(SemifiniteFunction(Arr(sizes)), SemifiniteFunction(Arr(values))).expect("LIBRARY: checked constructor rejected a well-formed segmented array")
 }
 
 pub fn build_hyper<O: Lab, A: Lab>(p: &POpen<O, A>) -> SHyper<O, A> {
@@ -227,7 +227,7 @@ impl crate::ops::StrictOps for B {
         let a: Vec<Vec<O>> = ops.iter().map(|o| o.1.clone()).collect();
         let b: Vec<Vec<O>> = ops.iter().map(|o| o.2.clone()).collect();
         dec(catch(|| {
-            let o = Operations::new(sf(&x), seg_sf(&a), seg_sf(&b)).expect("operations valid by construction");
+            let o = Operations::new(sf(&x), seg_sf(&a), seg_sf(&b)).expect("LIBRARY: Operations::new rejected a well-formed batch");
             SOpen::<O, A>::tensor_operations(o)
         }))
     }
@@ -314,9 +314,9 @@ impl crate::ops::StrictOps for B {
         let log = std::cell::RefCell::new(Vec::new());
         let r = catch(|| {
             strict::eval::eval(&f, Arr(inputs.to_vec()), |labels: SF<A>, args: IC<SF<u64>>| {
-                let args = decode_seg_sf(&args, "apply arguments").expect("apply arguments malformed");
+                let args = decode_seg_sf(&args, "apply arguments").expect("LIBRARY: arguments handed to the evaluator callback are malformed");
                 let labels: Vec<A> = labels.0 .0.clone();
-                assert_eq!(labels.len(), args.len(), "apply: one argument list per operation");
+                assert_eq!(labels.len(), args.len(), "LIBRARY: evaluator callback got a different number of labels and argument lists");
                 let mut outs = vec![];
                 for (l, a) in labels.iter().zip(args.iter()) {
                     log.borrow_mut().push((l.clone(), a.clone()));
@@ -396,10 +396,10 @@ impl strict::functor::Functor<K, u8, u8, u8, u8> for HalfOptic {
 pub struct TestFunctor(pub crate::tf::TF);
 
 pub fn decode_operations<O: Lab, A: Lab>(ops: &Operations<K, O, A>) -> Vec<(A, Vec<O>, Vec<O>)> {
-    let a = decode_seg_sf(&ops.a, "operations.a").expect("operations.a malformed");
-    let b = decode_seg_sf(&ops.b, "operations.b").expect("operations.b malformed");
+    let a = decode_seg_sf(&ops.a, "operations.a").expect("LIBRARY: operation batch handed to the functor is malformed (a)");
+    let b = decode_seg_sf(&ops.b, "operations.b").expect("LIBRARY: operation batch handed to the functor is malformed (b)");
     let x: Vec<A> = ops.x.0 .0.clone();
-    assert!(x.len() == a.len() && x.len() == b.len(), "operation batch with unequal counts");
+    assert!(x.len() == a.len() && x.len() == b.len(), "LIBRARY: operation batch handed to the functor has unequal counts");
     x.into_iter().zip(a.into_iter().zip(b.into_iter())).map(|(x, (a, b))| (x, a, b)).collect()
 }
 
